@@ -150,5 +150,16 @@ def check(ctx: Ctx) -> str:
     ctx.rule("R6", "overlays get their own cache, re-bound extensions and a link to the parent; the configuration check runs on them")
     for frag, what in (("rv.cache = copy_cache(self.cache)", "fresh cache"), ("rv.extensions[key] = value.bind(rv)", "extensions re-bound to the overlay"), ("rv.overlayed = True", "overlay flag"), ("rv.linked_to = self", "link"), ("_environment_config_check(rv)", "config check")):
         ctx.check(frag in src, f"overlay:{what}", "environment:Environment.overlay", what, f"overlay no longer does `{frag}`", ov.loc())
+    # overlay copies the instance __dict__: nothing derived from the configuration may be memoised there
+    for ci in repo.classes():
+        if not any(c.name == "Environment" and c.module.name == "environment" for c in repo.mro(ci)):
+            continue
+        for name, fn in ci.methods.items():
+            decos = [ast.unparse(d) for d in fn.decorator_list]
+            memo = [d for d in decos if "cached_property" in d or "lru_cache" in d or d.endswith("cache")]
+            ctx.check(not memo, f"memo:{ci.name}.{name}", f"{ci.module.name}:{ci.name}.{name}", f"memoised on the instance ({', '.join(memo)})",
+                      f"{ci.name}.{name} is memoised ({memo}); overlay() copies the instance __dict__ before applying the overridden options, so the overlay keeps the parent's cached value (e.g. its lexer)", ci.loc(fn)) if memo or name == "lexer" else None
+    lx = repo.func("environment:Environment.lexer")
+    ctx.check(lx.decorators() == ["property"] and "get_lexer(self)" in ast.unparse(lx.node), "lexer:property", "environment:Environment.lexer", "lexer resolved per access", "Environment.lexer must be a plain property returning get_lexer(self)", lx.loc())
     ctx.check("rv.__dict__.update(self.__dict__)" in src and "object.__new__(self.__class__)" in src, "overlay:copy", "environment:Environment.overlay", "shallow copy of the parent", "the overlay must start as a copy of the parent's attributes", ov.loc())
     return __doc__ or ""
